@@ -163,9 +163,9 @@ func Dump(d *meta.Data) string {
 	return b.String()
 }
 
-func i64(s string) int64   { v, _ := strconv.ParseInt(s, 10, 64); return v }
-func u64(s string) uint64  { v, _ := strconv.ParseUint(s, 10, 64); return v }
-func u32(s string) uint32  { v, _ := strconv.ParseUint(s, 10, 32); return uint32(v) }
+func i64(s string) int64  { v, _ := strconv.ParseInt(s, 10, 64); return v }
+func u64(s string) uint64 { v, _ := strconv.ParseUint(s, 10, 64); return v }
+func u32(s string) uint32 { v, _ := strconv.ParseUint(s, 10, 32); return uint32(v) }
 func optI64(s string) *int64 {
 	if s == "-" {
 		return nil
